@@ -282,6 +282,7 @@ class Interp:
         sub._depth = getattr(self, '_depth', 0) + 1
         sub.member_range = self.member_range
         sub.exact_seqs, sub.carry_vecs = self.exact_seqs, self.carry_vecs
+        sub.elem_refs = self.elem_refs
         sub.carry_env, sub.carry_exact = self.carry_env, self.carry_exact
         env = {}
         states = [St(env, st.heap, st.ev, st.pc, st.ctr)]
@@ -332,7 +333,97 @@ class Interp:
         if sp and len(sp) > 5 and sp[5].rsplit('::', 1)[-1] in self.LOG_MACROS and not getattr(self, 'keep_logging', False):
             # the expansion of a logging macro: level tests and formatting are not part of the behaviour any rule reads
             return [Out('val', UNIT, st.event(('log', sp[5], e)))] if k in ('If', 'Block', 'Match') else self._ev(e, st)
+        if self.elem_refs:
+            return self.elem_ref_results(e, st, self._ev(e, st))
         return self._ev(e, st)
+
+    elem_refs = False     # (set on an instance, with exact_seqs) references to the elements of a local vector that is known element by
+                          # element carry the POSITION of the element they point to, so that `ptr::eq(a, b)` on two of them is decided
+                          # (see PlacedBytes, elem_ref_results)
+
+    REF_PRESERVING = ('core::option::Option::<T>::unwrap', 'core::option::Option::<T>::expect')
+
+    def elem_ref_results(self, e, st, outs):
+        """Where a position mark (PlacedBytes) may stay on the value of the expression `e`.  The invariant: a marked value at an
+        expression of static type `&E` IS the address of that element of that vector.  It is kept by construction:
+          * marks are put on by the operations std defines as "a reference to the element at position i" of a local `Vec<E>`:
+            first() / last() (here) and the items of iterating `&v` / `v.iter()` (ev_For);
+          * a mark survives only where the expression's static type is the reference type it was made at (directly, or as the payload
+            of an Option / a component of a tuple): `*r`, `r.clone()`, `r as *const E`, `&r` have another type and lose it - so a
+            copy of the element, or a reference to a reference, is never taken for the element's address;
+          * the result of every call loses its marks unless the callee hands its receiver's payload on as it is (unwrap / expect):
+            no assumption is made about what address another function returns (an identity model is right about values only).
+        Everything else (bindings, patterns, blocks, if / match, constructors of Option / tuples, closures) passes references on."""
+        k = e['k']
+        cal = callee_of(e) if k in ('Call', 'MethodCall') else None
+        made = None
+        if k == 'MethodCall' and cal in ('core::slice::<impl [T]>::first', 'core::slice::<impl [T]>::last') and not e['args']:
+            made = self.elem_ref_source(e['recv'], st)
+        elif k == 'MethodCall' and cal is not None and (cal == 'core::iter::traits::iterator::Iterator::last' or cal.endswith(' as core::iter::traits::iterator::Iterator>::last')) and not e['args'] and e['recv']['k'] == 'MethodCall' \
+                and callee_of(e['recv']) == 'core::slice::<impl [T]>::iter' and not e['recv']['args']:
+            # v.iter().last(): the last item of the slice iterator, i.e. a reference to the last element (None when there is none)
+            made = self.elem_ref_source(e['recv']['recv'], st)
+        res = []
+        for o in outs:
+            if o.kind != 'val' or (made is None and not has_place(o.val)):
+                res.append(o); continue
+            v = o.val
+            if made is not None:
+                # first() / last() of a non-empty slice: Some(reference to its first / last element), by std's definition
+                token, elems, ety = made
+                i = 0 if cal.endswith('::first') else len(elems) - 1
+                v = strip_places(v)
+                if v[0] == 'ctor' and v[1] == 'Some' and len(v[2]) == 1 and elems and v[2][0] == elems[i] and e.get('ty') == 'core::option::Option<&%s>' % ety:
+                    v = ('ctor', 'Some', (place_elem(v[2][0], token, i, '&' + ety),))
+            elif k in ('Call', 'MethodCall') and cal not in self.REF_PRESERVING and not (k == 'Call' and e['f']['k'] == 'Path' and e['f'].get('defkind', '').startswith('Ctor')):
+                v = strip_places(v)     # (a tuple-variant constructor `Some(r)` is a Call too: it holds its argument, by type, below)
+            else:
+                v = keep_places_of_type(v, e.get('ty') or '')
+            res.append(Out(o.kind, v, o.st, o.target))
+        return res
+
+    def elem_ref_items(self, it, st, items):
+        """The items a `for` loop takes from the iterator expression `it`, marked with their positions when the loop iterates a local
+        vector BY REFERENCE in order: `&v` / `v.iter()` yield `&v[0], &v[1], ..` (std: IntoIterator for &Vec<T> is the slice iterator,
+        front to back), `.enumerate()` of that pairs each with its index.  Any other iterator expression (by value, reversed, skipped,
+        mapped ..): the items as they are, unmarked."""
+        def by_ref(x):
+            if x['k'] == 'AddrOf' and not x.get('mut'):
+                return self.elem_ref_source(x['e'], st) if x['e']['k'] == 'Path' else None
+            if x['k'] == 'MethodCall' and callee_of(x) == 'core::slice::<impl [T]>::iter' and not x['args']:
+                return self.elem_ref_source(x['recv'], st)
+            return None
+        enum = it['k'] == 'MethodCall' and (callee_of(it) or '').endswith('core::iter::traits::iterator::Iterator::enumerate') and not it['args']
+        src = by_ref(it['recv'] if enum else it)
+        if src is None:
+            return items
+        token, elems, ety = src
+        if len(items) != len(elems):
+            return items
+        out = []
+        for i, (x, el) in enumerate(zip(items, elems)):
+            if enum:
+                if not (x[0] == 'tuple' and len(x[1]) == 2 and x[1][0] == ('lit', i) and x[1][1] == el):
+                    return items
+                out.append(('tuple', (x[1][0], place_elem(el, token, i, '&' + ety))))
+            else:
+                if x != el:
+                    return items
+                out.append(place_elem(el, token, i, '&' + ety))
+        return out
+
+    def elem_ref_source(self, recv, st):
+        """(token, elements, element type) when `recv` names a local of type Vec<E> - the vector itself, not a reference to one, so
+        that two references taken from it while both are alive point into the same unchanged buffer (the borrow checker's
+        guarantee) - whose elements are all known; None otherwise."""
+        r = hirq.peel_refs(recv)
+        ty = r.get('ty') or ''
+        if r['k'] != 'Path' or r.get('res') != 'local' or not (ty.startswith('alloc::vec::Vec<') and ty.endswith('>')):
+            return None
+        cur = st.env.get(r['bind'])
+        if cur is None or cur[0] != 'vec' or not ground(cur):
+            return None
+        return (self.body.path, r['bind']), cur[1], ty[len('alloc::vec::Vec<'):-1]
 
     def _ev(self, e, st):
         k = e['k']
@@ -436,8 +527,27 @@ class Interp:
         return outs + abn
 
     def ev_AddrOf(self, e, st):
-        outs = self.ev(e['e'], st)
         inner = e['e']
+        if self.elem_refs and not e.get('mut') and inner['k'] == 'Unary' and inner.get('op') == 'Deref' and (inner['e'].get('ty') or '').startswith('&') \
+                and inner['e'].get('ty') == e.get('ty'):
+            # `&*r` of a shared reference r, at r's own type: a reborrow - the same address (the built-in dereference of a reference,
+            # no Deref impl involved), so r's position mark stays; any other `&expr` is evaluated as usual and loses it
+            return self.ev(inner['e'], st)
+        if self.elem_refs and not e.get('mut') and inner['k'] == 'Index':
+            # `&v[i]` with a known i inside the bounds of a local vector known element by element: the address of that element
+            src = self.elem_ref_source(inner['e'], st)
+            if src is not None and e.get('ty') == '&' + src[2]:
+                token, elems, ety = src
+                res = []
+                for o in self.ev(inner['idx'], st):
+                    i = o.val[1] if o.kind == 'val' and o.val[0] == 'lit' else None
+                    if isinstance(i, int) and not isinstance(i, bool) and 0 <= i < len(elems):
+                        res.append(Out('val', place_elem(elems[i], token, i, '&' + ety), o.st))
+                    else:
+                        res = None; break
+                if res is not None:
+                    return res
+        outs = self.ev(e['e'], st)
         if e.get('mut') and not self.places and inner.get('k') == 'Path' and inner.get('res') == 'local' and st.env.get(inner['bind'], ('unk',))[0] in TRACKED_VEC:
             # `&mut v` of a local whose elements are tracked is handed to code without a model (the modelled uses - encode_into,
             # mem::take / replace - are intercepted before their arguments are evaluated; with `places` the reference names the
@@ -1011,6 +1121,8 @@ class Interp:
             if lits is None and self.domain is not None and not self.for_once:
                 # a sequence whose elements the domain knows one by one (the pieces of a split symbolic string): run exactly over them
                 lits = self.domain.iter_elems(self, itv, o.st, e)
+            if lits is not None and self.elem_refs:
+                lits = self.elem_ref_items(e['iter'], o.st, lits)
             if lits is not None:
                 # a loop over a literal sequence runs exactly over its elements
                 states = [o.st]
@@ -2793,6 +2905,76 @@ def char_digit(code, radix):
         return None
     return d if d < radix else None
 
+class PlacedBytes(bytes):
+    """The octets of a byte-string element of a local vector, marked with WHERE that element is: `.place` = (vector token, position,
+    static type of a reference to it).  It is `bytes` for everything that reads the VALUE (==, hash, len, indexing, every model that
+    looks at octets) - two elements with the same octets at different positions are equal values; only `ptr::eq` reads the mark.
+    Anything that builds new octets (slicing, concatenation, bytes(...)) yields plain bytes, i.e. drops the mark."""
+
+def place_elem(x, token, i, refty):
+    """the literal byte-string element x as the referent of a reference to position i of the vector `token`; other terms unchanged
+    (no mark: `ptr::eq` on them stays undecided)"""
+    if x[0] == 'lit' and isinstance(x[1], bytes):
+        b = PlacedBytes(x[1])
+        b.place = (token, i, refty)
+        return ('lit', b)
+    return x
+
+def has_place(t):
+    if not isinstance(t, tuple):
+        return False
+    if len(t) == 2 and t[0] == 'lit' and not isinstance(t[1], tuple):
+        return isinstance(t[1], PlacedBytes)
+    return any(has_place(x) for x in t if isinstance(x, tuple))
+
+def strip_places(t):
+    """t with every position mark removed (the values are untouched)"""
+    if not isinstance(t, tuple) or not t:
+        return t
+    if t[0] == 'lit' and len(t) == 2 and not isinstance(t[1], tuple):
+        return ('lit', bytes(t[1])) if isinstance(t[1], PlacedBytes) else t
+    changed = False
+    new = []
+    for x in t:
+        y = strip_places(x) if isinstance(x, tuple) else x
+        changed = changed or y is not x
+        new.append(y)
+    return tuple(new) if changed else t
+
+def split_top(s):
+    """the comma-separated parts of a type list, commas inside <> () [] not counted"""
+    parts, depth, cur = [], 0, ''
+    for ch in s:
+        if ch in '<([':
+            depth += 1
+        elif ch in '>)]':
+            depth -= 1
+        if ch == ',' and depth == 0:
+            parts.append(cur.strip()); cur = ''
+        else:
+            cur += ch
+    if cur.strip():
+        parts.append(cur.strip())
+    return parts
+
+def keep_places_of_type(v, ty):
+    """v, the value of an expression of static type ty, with the position marks that are valid at that type: on the value itself when
+    ty is the reference type the mark was made at, inside `Some(..)` / a tuple when the payload / component type is; every other
+    mark is removed (the value is a copy of the element, a reference to a reference, a raw pointer, a container of another kind)."""
+    if v[0] == 'lit':
+        if isinstance(v[1], PlacedBytes) and v[1].place[2] != ty:
+            return ('lit', bytes(v[1]))
+        return v
+    if v[0] == 'ctor' and v[1] == 'Some' and len(v[2]) == 1 and ty.startswith('core::option::Option<') and ty.endswith('>'):
+        x = keep_places_of_type(v[2][0], ty[len('core::option::Option<'):-1])
+        return v if x is v[2][0] else ('ctor', 'Some', (x,))
+    if v[0] == 'tuple' and ty.startswith('(') and ty.endswith(')'):
+        tys = split_top(ty[1:-1])
+        if len(tys) == len(v[1]):
+            xs = tuple(keep_places_of_type(x, t) for x, t in zip(v[1], tys))
+            return v if all(a is b for a, b in zip(xs, v[1])) else ('tuple', xs)
+    return strip_places(v)
+
 def ground(t):
     """t is a completely known value: a literal, or a vector / array / tuple / constructor of completely known values"""
     if t[0] == 'lit':
@@ -3069,6 +3251,16 @@ def builtin_summary(I, cal, args, node, st):
     name = cal.rsplit('::', 1)[-1]
     is_opt = cal.startswith('core::option::Option::<T>::')
     is_res = cal.startswith('core::result::Result::<T, E>::')
+    if cal == 'core::ptr::eq' and len(args) == 2 and I.elem_refs and node.get('k') == 'Call' and len(node.get('args') or ()) == 2 \
+            and all(a[0] == 'lit' and isinstance(a[1], PlacedBytes) for a in args):
+        # ptr::eq(a, b) on two references to elements of ONE local vector (marked by the operations that made them, see
+        # Interp.elem_ref_results; both argument expressions have the reference type the marks were made at): the addresses are
+        # equal exactly when the positions are - the elements of a Vec<E> lie E-sized apart, and E (a Vec / String / reference:
+        # never zero-sized) has a size.  References into different vectors, or anything unmarked: no model (the call stays opaque).
+        (ta, ia, ra), (tb, ib, rb) = args[0][1].place, args[1][1].place
+        sized = ra.startswith(('&alloc::vec::Vec<', '&alloc::string::String', '&&'))
+        if ta == tb and ra == rb and sized and all((x.get('ty') or '') == ra for x in node['args']):
+            return [Out('val', ('lit', ia == ib), st)]
     if cal == 'core::mem::discriminant' and len(args) == 1:
         # mem::discriminant(&x): the variant of x and nothing else; of a constructor term it is that constructor's name, of a value
         # whose variant the path condition has fixed it is that variant
